@@ -80,8 +80,15 @@ def wrapLength (e : Env) (cfg : Cfg) (s : Str) : String :=
   | some (allowed, s1, false) => toString (allowed - suffixReserve (blen s1))
   | _ => "~"
 
-/-- state of the driver: the list stored in `_mores` for the (single) requester -/
-abbrev St := List Out
+/-- state of the driver: the `_mores` dictionary -/
+abbrev St := Mores
+
+def encMoreRes : MoreRes → String
+  | .sent l => "sent\t" ++ encOuts l
+  | .noMore => "nomore"
+  | .noPublic => "nopublic"
+  | .cantFind => "cantfind"
+  | .notAsked => "notasked"
 
 def stepLine (st : St) : List String → St × String
   | ["munge", s] => (st, match dec s with | some s => enc (munge s) | none => "bad-op")
@@ -123,9 +130,9 @@ def stepLine (st : St) : List String → St × String
          | none => "unsupported"
          | some (allowed, s1, single) => toString allowed ++ "\t" ++ enc s1 ++ "\t" ++ encBool single)
       | _, _, _ => "bad-op")
-  | "reply" :: s :: chunks :: l :: m :: i :: on :: env =>
-    match dec s, decList chunks, decCfg [l, m, i, on], decEnv env with
-    | some s, some chunks, some cfg, some e =>
+  | "reply" :: mask :: s :: chunks :: l :: m :: i :: on :: env =>
+    match dec mask, dec s, decList chunks, decCfg [l, m, i, on], decEnv env with
+    | some mask, some s, some chunks, some cfg, some e =>
       (match prepare e cfg s with
        | none => (st, "unsupported")
        | some (_, s1, single) =>
@@ -133,20 +140,21 @@ def stepLine (st : St) : List String → St × String
          else match reply e cfg chunks s with
            | .sent now stored =>
              ((match stored with
-               | some l => l
+               | some l => st.store mask e.nick (storedPrivate e) l
                | none => st),
               "sent\t" ++ encOuts now ++ "\t" ++ (match stored with
                 | some l => encOuts l
                 | none => "~") ++ "\t" ++ wrapLength e cfg s)
            | .wrapFailed r => (st, "wrapfailed\t" ++ encRes r)
            | .unsupported => (st, "unsupported"))
-    | _, _, _, _ => (st, "bad-op")
-  | ["more", n] =>
-    match n.toNat? with
-    | some n => let (out, rest) := moreStep n st; (rest, encOuts out)
-    | none => (st, "bad-op")
-  | ["clear"] => ([], "ok")
+    | _, _, _, _, _ => (st, "bad-op")
+  | ["more", n, mask, nick] =>
+    match n.toNat?, dec mask, decOpt nick with
+    | some n, some mask, some nick => let r := st.more mask nick n; (r.1, encMoreRes r.2)
+    | _, _, _ => (st, "bad-op")
+  | ["lower", s] => (st, match dec s with | some s => enc (ircLower s) | none => "bad-op")
+  | ["clear"] => ({}, "ok")
   | _ => (st, "bad-op")
 
-def handler : Driver.Handler := { σ := St, init := [], step := stepLine }
+def handler : Driver.Handler := { σ := St, init := {}, step := stepLine }
 end C12
